@@ -857,3 +857,12 @@ Proof.
   destruct (Hacc s t Hpend Hack) as (i & dA & H1 & H2 & H3 & H4 & H5 & H6).
   exists a0, d, s, t, i, dA. repeat split; assumption.
 Qed.
+
+(* ---------- (fresh acks) cannot be dropped ---------- *)
+(* any J-state stays a J-state when A is replaced by a connection later in its session (its own
+   invariant AInv at a larger index): what B has accepted and what is on the wire is unchanged *)
+Lemma J_with_A S K K' G a n : J S K G -> AInv S K' a n -> g_nA G <= n -> J S K' (with_A G a n).
+Proof.
+  intros [HA HAB HND HABw HB Hacc HBA HBAw] Ha Hn. constructor; cbn; try assumption.
+  intros i d Hin. destruct (HAB i d Hin). split; [lia|assumption].
+Qed.
